@@ -40,7 +40,8 @@ EXC_KINDS = ['OSError', 'SimError', 'SimAbort', 'KeyboardInterrupt', 'MemoryErro
              'UnicodeDecodeError', 'UnicodeEncodeError', 'AttributeError', 'YAMLError', 'ReaderError', 'ValueError',
              'KeyError', 'EmitterError', 'ConstructorError', 'RepresenterError', 'AssertionError', 'ImportError',
              'RecursionError', 'SystemExit', 'InterruptedError', 'BlockingIOError', 'LookupError', 'EOFError', 'BufferError',
-             'BrokenPipeError', 'ConnectionResetError', 'TimeoutError', 'PermissionError', 'FileNotFoundError']
+             'BrokenPipeError', 'ConnectionResetError', 'TimeoutError', 'PermissionError', 'FileNotFoundError',
+             'MarkedConstructorError', 'MarkedScannerError']
 
 # a plain function that raises StopIteration is not touched by PEP 479: from a representer (never called inside a
 # generator frame of the library) it must pass through like any other exception
@@ -88,6 +89,13 @@ def make_exc(kind, tag):
         return yaml.emitter.EmitterError(tag)
     if kind == 'ConstructorError':
         return yaml.constructor.ConstructorError(None, None, tag, None)
+    if kind in ('MarkedConstructorError', 'MarkedScannerError'):
+        # what a user callback raises when it reports a problem the way the library does: marks included (with and
+        # without a buffer behind them)
+        m1 = yaml.Mark('<sim>', 3, 1, 2, None, None)
+        m2 = yaml.Mark('<sim>', 5, 1, 4, 'ab: cd ef\0', 5)
+        cls = yaml.constructor.ConstructorError if kind == 'MarkedConstructorError' else yaml.scanner.ScannerError
+        return cls('while simulating', m1, tag, m2, 'a note')
     if kind == 'RepresenterError':
         return yaml.representer.RepresenterError(tag)
     return {'KeyboardInterrupt': KeyboardInterrupt, 'MemoryError': MemoryError, 'IndexError': IndexError,
@@ -148,6 +156,10 @@ def generate(seed, tier):
         v = g.value(0)
         if custom:
             v = ['list', [v, ['pt', rv.randint(0, 9), rv.randint(0, 9)]] + ([['pt', 1, 2]] if rv.random() < 0.5 else []), 9000 + len(vals)]
+            if ndocs > 1 and len(vals) < ndocs - 1 and rv.random() < 0.35:
+                # an "open-ended" document (a root scalar: whether a '...' must follow is decided by what comes next)
+                # right before a document whose representer / constructor can fail
+                v = rv.choice([['str', 'abc'], ['int', 7], ['str', 'two words'], ['str', 'kept\n\n'], ['none'], ['str', '']])
         vals.append(v)
     case = {'side': side, 'values': vals, 'custom': custom, 'points': None, 'salt': r.randrange(1 << 30),
             'multi_callback': r.random() < 0.3, 'gen_callback': r.random() < 0.3, 'special': custom and r.random() < 0.4}
@@ -209,6 +221,8 @@ def generate(seed, tier):
     else:
         sched = {'sizes': [], 'then': None}
     case.update(api=api, loader=loader, form=form, sizes=sched['sizes'], then=sched['then'], min_piece=1)
+    if custom and case.get('text') is None and r.random() < 0.3:
+        case['inmem'] = True       # the document is handed over as str / bytes: no stream, the failure points are the callbacks
     case['path_resolvers'] = api not in WRAP_LOAD and r.random() < 0.25
     if api not in WRAP_LOAD and case.get('text') is None and not loader.endswith('BaseLoader') and r.random() < 0.08:
         # one Loader object driven document by document over a long stream in which a user constructor fails every time
@@ -512,6 +526,8 @@ def run_once(yaml, case, world, payload, faults, sticky=False):
                       name='/srv/app/config.yaml' if case['salt'] % 3 == 0 else None)
         if case['salt'] % 5 < 2 and form == 'text':
             s.encoding = 'utf-8'         # what an open(path, encoding=...) text file advertises
+        if case.get('inmem'):
+            s = data
         api = case['api']
         L = world['Loader']
         try:
@@ -532,7 +548,7 @@ def run_once(yaml, case, world, payload, faults, sticky=False):
             raise
         except BaseException as exc:
             obs['exc'] = exc
-        obs['n_r'] = s.calls
+        obs['n_r'] = getattr(s, 'calls', 0)
         obs['rlog'] = [(e[3], e[4]) for e in log]
     obs['n_cb'] = plan.counts['cb']
     obs['n_it'] = plan.counts['it']
